@@ -196,7 +196,7 @@ def driver_configs(tier, seed):
         for ad in (None, "forward", "reverse", "2rdm"):
             for orot in (True, False):
                 for sr in (True, False):
-                    if not thorough and not ((orot and sr) or (ad in (None, "reverse") and not orot and not sr)):
+                    if not thorough and not ((orot and sr) or (ad in ("forward", "reverse") and not orot and not sr)):
                         continue
                     out.append(dict(kind="driver", wt=wt, ad_mode=ad, orbital_rotation=orot, do_sr=sr, seed=seed, tier=tier))
     return out
@@ -302,6 +302,8 @@ def run(ctx):
         wt, ad, orot, sr = k.split("|")
         if ad == "2rdm":
             continue
+        if ad == "None" and sr != "True":
+            continue  # without AD the driver always uses the plain sampler (with reconfiguration): other block structure
         groups.setdefault((wt, orot, sr), []).append((ad, out))
     for g, lst in groups.items():
         for ad, out in lst[1:]:
